@@ -410,6 +410,22 @@ func checkC17(R *Run) {
 		}
 		R.check(okAll, "ban-persist", fname(add), P.pos(add.Pos()), "insert → marshal → write/rename onto filePath before every success return", why)
 	}
+	if load != nil {
+		// the loader only reads (a leftover temp file is a half-written one: it is never promoted)
+		mut := ""
+		for f := range P.reachFuncs(load) {
+			if !P.isRepoPkg(pkgOf(f)) {
+				continue
+			}
+			for _, ci := range callsIn(f) {
+				switch n := calleeName(ci.Common()); n {
+				case "os.Rename", "os.Remove", "os.RemoveAll", "os.WriteFile", "os.Create", "os.Truncate":
+					mut = n + " at " + P.ipos(ci)
+				}
+			}
+		}
+		R.check(mut == "", "ban-persist", fname(load)+": read-only", P.pos(load.Pos()), "the loader performs no filesystem mutation", "the ban list loader changes the filesystem ("+mut+"): a restart can replace the recorded bans by something else (a temp file that a crash or write fault left half-written)")
+	}
 	if load != nil && nb != nil {
 		R.analysed(fname(load))
 		reads := false
